@@ -568,6 +568,7 @@ struct Sup {
     w: Worker,
     rep: Report,
     profile: String,
+    timeout_s: u64,
 }
 
 impl Sup {
@@ -624,8 +625,19 @@ impl Sup {
                 );
             }
             "timeout" => {
-                self.rep.count("timeouts.unconfirmed");
-                self.rep.notes.push(format!("timeout on {} {} ({} bytes): re-run separately to confirm", decoder, what, input.len()));
+                // wall-clock is never a verdict on its own: re-run the case alone with three times the budget
+                self.rep.count("timeouts.first");
+                let again = self.w.call(&format!("D {} {}", decoder, canon::hex(input)), Duration::from_secs(3 * self.timeout_s));
+                if again["o"] == "timeout" {
+                    self.rep.violation(
+                        &format!("C13:hang:{}", decoder),
+                        &format!("{} decoder made no progress for {} s (and again for {} s when re-run alone) on {} ({} bytes)", decoder, self.timeout_s, 3 * self.timeout_s, what, input.len()),
+                        replay.clone(),
+                        J::Null,
+                    );
+                } else {
+                    self.rep.count("timeouts.not_reproduced");
+                }
             }
             other => {
                 self.rep.violation(
@@ -661,7 +673,7 @@ pub fn main(a: &Args) {
         None => std::env::current_exe().unwrap(),
     };
     let profile = a.str("profile-name", "release");
-    let mut sup = Sup { w: Worker::spawn(&exe), rep: Report::new("C13"), profile };
+    let mut sup = Sup { w: Worker::spawn(&exe), rep: Report::new("C13"), profile, timeout_s: a.u64("timeout", 30) };
     let to = Duration::from_secs(a.u64("timeout", 30));
     const KINDS: &[&str] = &["bin-none", "bin-none", "bin-lz4", "bin-zstd", "xml", "xml", "attr"];
     match mode.as_str() {
